@@ -56,6 +56,29 @@ EQ_ENVS = ['equation', 'equation*', 'align', 'align*', 'displaymath', 'eqnarray'
            'flalign', 'gather*']
 LANG_NAMES = ['german', 'english', 'russian', 'french', 'ngerman', 'american']
 
+_odd = {}
+def odd_macro_names():
+    """names for user macros that lie next to the control words the parser treats specially (proper prefixes and inner
+    parts of \\def, \\gdef, \\begin, \\end, \\item, \\verb, \\newcommand ...) and one-letter names; declared names, accents
+    and the special control words themselves are left out"""
+    if 'v' not in _odd:
+        import impl
+        m = impl.load()
+        parms = m.parameters.Parameters('en')
+        pr = m.parser.Parser(parms, m.tex2txt.get_packages('*', parms.package_modules), read_macros=None)
+        taken = set(pr.the_macros) | set(ACCENTS) | set(parms.accent_macros) | {'\\' + k for k in pr.the_environments}
+        kws = ['def', 'gdef', 'begin', 'end', 'item', 'verb', 'newcommand', 'renewcommand', 'LTinput', 'par', 'text', 'mbox',
+               'footnote', 'usepackage', 'documentclass', 'label', 'cite', 'ref']
+        cand = set()
+        for k in kws:
+            for i in range(len(k)):
+                for j in range(i + 1, len(k) + 1):
+                    if (i, j) != (0, len(k)):
+                        cand.add('\\' + k[i:j])
+        cand |= {'\\' + c for c in 'gqwyzGQ'}
+        _odd['v'] = sorted(n for n in cand if n not in taken and '\\' + n[1:] not in kws and n[1:] not in kws)
+    return _odd['v']
+
 class G:
     def __init__(self, rng, profile=None):
         self.rng = rng
@@ -318,6 +341,11 @@ class G:
     def c_newcommand(self):
         rng = self.rng
         name = '\\m' + ''.join(rng.choice(LET) for _ in range(3))
+        if rng.random() < 0.2:
+            odd = [n for n in odd_macro_names() if n not in {mm['name'] for mm in self.macros}]
+            if odd:
+                short = [n for n in odd if len(n) <= 4]
+                name = rng.choice(short if short and rng.random() < 0.7 else odd)
         nargs = rng.choice([0, 0, 1, 1, 2, 3])
         opt = nargs > 0 and rng.random() < 0.3
         body = []
@@ -792,7 +820,7 @@ def make_doc(rng, profile=None, n=None):
 # --------------------------------------------------------------------------
 # derived streams
 
-SOUP = (['#10', '#1000', '#0', '\\\\ ', '\\\\  x', '\r\n', '\r', '\f', '\x0b', '\x1c', '\x85', '\u2028', '\u2029', '\\', '{', '}', '$', '$$', '%', '#', '#1', '#3', '&', '~', '^', '_', '[', ']', '*', ' ', '\n', '\n\n', '\t',
+SOUP = (['#\u00b2', '#\u00b3 ', '#\u2460', '#\u2082', '#\u0663', '#\u00bd', '#10', '#1000', '#0', '\\\\ ', '\\\\  x', '\r\n', '\r', '\f', '\x0b', '\x1c', '\x85', '\u2028', '\u2029', '\\', '{', '}', '$', '$$', '%', '#', '#1', '#3', '&', '~', '^', '_', '[', ']', '*', ' ', '\n', '\n\n', '\t',
          'a', 'Z', '1', '.', ',', '-', '--', '``', "''", '"', '\u00a0', '\u2003', '\u0663', '\u00e4', '\u00df',
          '\\begin', '\\end', '\\item', '\\verb', '\\verb|', '\\begin{verbatim}', '\\end{verbatim}', '\\[', '\\]', '\\(', '\\)',
          '\\\\', '\\\\[', "\\'", '\\"', '\\c', '\\def', '\\newcommand', '\\renewcommand', '\\section', '\\footnote', '\\cite',
